@@ -20,7 +20,8 @@ The analysis is a flow-insensitive, over-approximating "may be a set" inference:
   ("set-ordered" lists/dicts/generators).
 
 Keys are line-independent: file:function:kind:<normalised source of the iterable>#n.
-Reviewed exceptions: harness/translate/itersites_allow.json {key: {"pattern", "why"}}.
+Reviewed exceptions: harness/translate/itersites_allow.json {key: {"pattern", "why"}} — exact
+site keys only, no prefix rules.
 """
 import ast
 import json
@@ -770,14 +771,10 @@ def analyse(repo=None):
             s["pattern"] = "allowed"
             s["why"] = "file is not imported by embossc/emboss_front_end/emboss_codegen_cpp (import graph recomputed on every run)"
             continue
-        hit = None
-        if s["key"] in allow:
-            hit = s["key"]
-        else:
-            for k, e in allow.items():
-                if e.get("prefix") and s["key"].startswith(k):
-                    hit = k
-                    break
+        # exact keys only (round 2): a prefix rule such as "lr1.py:Grammar." would silently allow
+        # every NEW unsorted iteration added below it; an entry with "prefix" is ignored and
+        # shows up as stale.
+        hit = s["key"] if s["key"] in allow and not allow[s["key"]].get("prefix") else None
         if hit is not None:
             s["pattern"] = allow[hit].get("pattern", "allowed")
             s["why"] = allow[hit]["why"]
